@@ -1165,6 +1165,17 @@ void rfbNewFramebuffer(rfbScreenInfoPtr screen, char *framebuffer,
 
   screen->frameBuffer = framebuffer;
 
+  /* A rich cursor image the library itself derived from the X cursor (the default cursor,
+     rfbMakeXCursor cursors drawn for clients without cursor support) is in the old pixel
+     format: drop it, rfbShowCursor / rfbSendCursorShape derive it again on demand.
+     (Rich cursor data supplied by the application is converted by the application.) */
+  if (format_changed && screen->cursor && screen->cursor->richSource &&
+      screen->cursor->cleanupRichSource && screen->cursor->source) {
+    free(screen->cursor->richSource);
+    screen->cursor->richSource = NULL;
+    screen->cursor->cleanupRichSource = FALSE;
+  }
+
   /* Scaled versions were made from the old framebuffer (size, format, contents) */
   rfbScaledScreensNewFramebuffer(screen, old_width, old_height);
 
